@@ -35,7 +35,7 @@
 #include "metrics.h"
 #include "debug_flags.h"
 
-#include "json.h"
+#include "vjson.h"
 #include "vdisk.h"
 
 namespace {
